@@ -178,12 +178,21 @@ impl fmt::Display for CssString {
         if let Some(q) = q {
             out.write_char(q)?;
         }
-        for c in self.value.chars() {
+        let mut chars = self.value.chars().peekable();
+        while let Some(c) = chars.next() {
             if Some(c) == q {
                 out.write_char('\\')?;
                 out.write_char(c)?;
             } else if is_private_use(c) {
                 write!(out, "\\{:x}", c as u32)?;
+                // A following hex digit or space would be read as a
+                // part of the escape, so terminate it explicitly.
+                if chars
+                    .peek()
+                    .is_some_and(|n| n.is_ascii_hexdigit() || *n == ' ')
+                {
+                    out.write_char(' ')?;
+                }
             } else {
                 out.write_char(c)?;
             }
